@@ -137,6 +137,35 @@ def runOps (W S : Nat) : Coder → List (List String) → List String → List S
     | some (y, out, dead) =>
       if dead then (out :: acc).reverse else runOps W S y rest (out :: acc)
 
+/-- ops available on cursor-backed coders (`ansc`, `ansd`); `data` is the whole buffer of a
+    seekable decoder (`Cursor::seek` only moves the position) -/
+def doOpCursor (W S : Nat) (data : Option (List Nat)) (x : Coder) (seg : List String) :
+    Option (Coder × String × Bool) :=
+  match seg with
+  | ["enc", _, _, _, _] => doOp W S x seg
+  | ["encnone", _, _] => doOp W S x seg
+  | ["dec", _, _, _] => doOp W S x seg
+  | ["raw"] => doOp W S x seg
+  | ["pos"] => doOp W S x seg
+  | ["empty"] => doOp W S x seg
+  | ["seek", l, s] => do
+      let l ← parseHex l
+      let s ← parseHex s
+      match data with
+      | some d =>
+        if l ≤ d.length then some ({ x with bulk := (d.take l).reverse, state := s }, "ok", false)
+        else some (x, "err", false)
+      | none => none
+  | _ => none
+
+def runOpsCursor (W S : Nat) (data : Option (List Nat)) : Coder → List (List String) → List String → List String
+  | _, [], acc => acc.reverse
+  | x, seg :: rest, acc =>
+    match doOpCursor W S data x seg with
+    | none => ("bad-op" :: acc).reverse
+    | some (y, out, dead) =>
+      if dead then (out :: acc).reverse else runOpsCursor W S data y rest (out :: acc)
+
 def handle (segs : List (List String)) : String :=
   match segs with
   | ["ans", w, s] :: init :: ops =>
@@ -147,6 +176,18 @@ def handle (segs : List (List String)) : String :=
         if out == "err" then "err" else " | ".intercalate (runOps W S x ops [out])
       | none => "bad-op"
     | _, _ => "bad-op"
+  | ["ansc", w, s, cap] :: ops =>
+    match parseHex w, parseHex s, parseHex cap with
+    | some W, some S, some n =>
+      " | ".intercalate (runOpsCursor W S none { bulk := [], state := 0, cap := some n } ops ["ok"])
+    | _, _, _ => "bad-op"
+  | ["ansd", w, s] :: [ws] :: ops =>
+    match parseHex w, parseHex s, parseList ws with
+    | some W, some S, some d =>
+      match fromCompressed (cfgOf W S 1 1) d.reverse with
+      | some x => " | ".intercalate (runOpsCursor W S (some d) { x with cap := some d.length } ops ["ok"])
+      | none => "err"
+    | _, _, _ => "bad-op"
   | _ => "bad-op"
 
 end CV.Driver.Ans
